@@ -80,6 +80,7 @@ type FuncCtx struct {
 	interior map[string]*Ptr
 	gerrIdx  int
 	pendingFacts []string
+	rootCon  *Contract
 	addingAxioms bool
 	axiomDone map[int]bool
 	rootFn   *ssa.Function
@@ -305,6 +306,11 @@ func (c *FuncCtx) buildQueryOpt(o *Obligation, withModel bool, relaxed bool) str
 	}
 	addSyms(o.Guard)
 	addSyms(o.Goal)
+	if withModel {
+		for _, iv := range o.Inputs {
+			addSyms(iv.Term) // the terms read back from a model must be declared in the query
+		}
+	}
 	for {
 		for len(work) > 0 {
 			s := work[len(work)-1]
